@@ -21,6 +21,8 @@ RULE = ('Hypothesis draws a family (constant, identity, monomial with exponent 0
         'parameters other than the ones in tests (mean != 0, alpha != 1, domain != 1, prefactor != 1) or dimension > 1.')
 RULE += (' ' + 'Added classes: Legendre domains 1e-3 ... 1000, B-spline evaluation at the end knots, the same point array updated in place between two rounds of queries, earlier results kept by the caller.')
 
+RULE += (' Added classes: directions given as NumPy integers; parameter attributes (alpha, mean, variance, exponent, prefactor, degree, domain) re-assigned after construction and first use, compared with a fresh object.')
+
 ASSUMPTIONS = [
     'oracle: complex-step / Richardson differentiation of the evaluation itself (independent of the derivative code)',
     'evaluation points inside the natural domain; spline points at least 0.05 away from every knot',
@@ -38,7 +40,11 @@ def fn_case(draw):
     idx = draw(st.integers(0, d - 1))
     c = {'family': fam, 'd': d, 'index': idx, 'explicit_dim': draw(st.booleans()), 'seed': draw(gen.SEED),
          'm': draw(st.integers(1, 5)), 'first_call': draw(st.sampled_from(['call', 'gradient', 'hessian', 'partial', 'partial2'])),
-         'point_type': draw(st.sampled_from(['float', 'float', 'float_list', 'int_array', 'int_list'])) if fam != 'bspline' else 'float'}
+         'point_type': draw(st.sampled_from(['float', 'float', 'float_list', 'int_array', 'int_list'])) if fam != 'bspline' else 'float',
+         # the direction arguments as the caller has them: python ints, or NumPy integers (for k in np.arange(d), np.argmax(...))
+         'direction_type': draw(st.sampled_from(['int', 'int', 'np.int64', 'np.intp'])),
+         # a parameter attribute (alpha, mean, exponent, ...) re-assigned after construction
+         'reassign': draw(st.sampled_from([False, False, True]))}
     fl = lambda a, b: draw(st.floats(a, b, allow_nan=False, allow_infinity=False))
     if fam == 'monomial':
         c['exponent'] = draw(st.integers(0, 6))
@@ -144,6 +150,10 @@ def body_fn(case):
         lab.add('non_test_parameter')
     spline = fam == 'bspline'
     tol1 = 1e-5 if spline else 1e-8
+    dt = case.get('direction_type', 'int')
+    K = {'int': int, 'np.int64': np.int64, 'np.intp': np.intp}[dt]
+    if dt != 'int':
+        lab.add('direction_numpy_integer')
 
     # evaluation on an array of points == point by point
     vals = np.array([float(f(X[:, j])) for j in range(X.shape[1])])
@@ -212,7 +222,7 @@ def body_fn(case):
         g = np.asarray(f.gradient(x), dtype=float)
         require(g.shape == (d,), 'gradient_shape', 'gradient has shape %s' % (g.shape,))
         for k in range(d):
-            p = float(f.partial(x, k))
+            p = float(f.partial(x, K(k)))
             if k != idx:
                 require(p == 0.0, 'foreign_partial', 'partial in foreign coordinate %d is %r' % (k, p))
                 want = 0.0
@@ -234,7 +244,7 @@ def body_fn(case):
             require(h.shape == (d, d), 'hessian_shape', 'hessian has shape %s' % (h.shape,))
             for a in range(d):
                 for b in range(d):
-                    p2 = float(f.partial2(x, a, b))
+                    p2 = float(f.partial2(x, K(a), K(b)))
                     if a == idx and b == idx:
                         want = richardson(lambda z: float(f.partial(z, idx)), x, idx) if spline else cstep(lambda z: f.partial(z, idx), x, idx)
                     else:
@@ -242,6 +252,39 @@ def body_fn(case):
                         require(p2 == 0.0, 'foreign_partial', 'partial2(%d,%d) is %r' % (a, b, p2))
                     close(np.array(p2), np.array(want), tol1, 1.0 + abs(want), 'partial2_value', 'partial2(%d,%d) of %s at %s' % (a, b, fam, x))
                     close(np.array(h[a, b]), np.array(p2), 1e-14, 1.0 + abs(p2), 'hessian_value', 'hessian[%d,%d] vs partial2' % (a, b))
+    # a parameter re-assigned after construction (f.alpha = ..., a sweep over a parameter with one object): evaluation and all
+    # derivatives are those of the function with the parameters the object has now, i.e. those of f
+    ALT = {'sin': {'alpha': 0.7}, 'cos': {'alpha': 0.7}, 'monomial': {'exponent': 1, 'prefactor': 2}, 'gauss': {'mean': 0.3, 'variance': 1.5},
+           'periodic_gauss': {'mean': 0.3, 'variance': 1.5}, 'legendre': {'degree': 1, 'domain': 2.0}}
+    if case.get('reassign') and fam in ALT:
+        other = dict(case)
+        for key, dv in ALT[fam].items():
+            other[key] = case[key] * dv if key in ('prefactor', 'variance', 'domain') else case[key] + dv
+        f2, _, _, _ = make_fn(other, np.random.default_rng(case['seed']))
+        x0 = X[:, 0].copy()
+        float(f2(x0))
+        try:
+            f2.hessian(x0)          # (the object has been used with its first parameters)
+        except NotImplementedError:
+            pass
+        for key in ALT[fam]:
+            setattr(f2, key, case[key])
+        close(np.array(float(f2(x0))), np.array(float(f(x0))), 1e-14, 1.0 + abs(float(f(x0))), 'array_eval', 'f(x) after %s were re-assigned' % sorted(ALT[fam]))
+        close(np.array(float(f2.partial(x0, idx))), np.array(float(f.partial(x0, idx))), 1e-14, 1.0 + abs(float(f.partial(x0, idx))), 'partial_value',
+              'partial after %s were re-assigned' % sorted(ALT[fam]))
+        close(np.asarray(f2.gradient(x0), dtype=float), np.asarray(f.gradient(x0), dtype=float), 1e-14, 1.0 + float(np.max(np.abs(f.gradient(x0)))),
+              'gradient_value', 'gradient after %s were re-assigned' % sorted(ALT[fam]))
+        try:
+            want2 = float(f.partial2(x0, idx, idx))
+            close(np.array(float(f2.partial2(x0, idx, idx))), np.array(want2), 1e-14, 1.0 + abs(want2), 'partial2_value',
+                  'partial2 after %s were re-assigned' % sorted(ALT[fam]))
+            hf_ = np.asarray(f.hessian(x0), dtype=float)
+            close(np.asarray(f2.hessian(x0), dtype=float), hf_, 1e-14, 1.0 + float(np.max(np.abs(hf_))), 'hessian_value',
+                  'hessian after %s were re-assigned' % sorted(ALT[fam]))
+        except NotImplementedError:
+            pass
+        lab.add('parameter_reassigned')
+
     # results handed out earlier stay what they were: the gradient / Hessian at the first point, kept by the caller while the same
     # function object is evaluated at the other points (and even scribbled on by the caller), still is the derivative at that point
     if X.shape[1] >= 2:
